@@ -4,7 +4,7 @@ from __future__ import annotations
 
 import numpy as np
 from hypothesis import strategies as st
-from scipy.linalg import expm
+from vlib.linear import expm
 
 from vlib import linear
 from vlib.core import Outcome
@@ -28,7 +28,7 @@ ASSUMPTIONS = [
 ]
 TECHNIQUE = "property-based testing against an analytic steady state with a tolerance bound derived from the stop rule; negative classes must yield the failure value"
 LEVEL_TEXT = "Generated-input search over stable linear networks with slow and fast relaxation, both norms and tolerances, plus no-steady-state classes; every success is compared with the analytic fixed point."
-LEVEL_NOTE = "Trusted: numpy.linalg / scipy.linalg.expm for the analytic oracle; bound has a safety factor 10."
+LEVEL_NOTE = "Trusted: numpy.linalg / vlib.linear.expm for the analytic oracle; bound has a safety factor 10."
 
 
 def budget(tier: str) -> dict:
